@@ -1,14 +1,69 @@
 from . import stage
+from .. import runner
 
 FLAVOURS = ["san"]
+
+# libgcrypt is not instrumented but its allocations go through ASan's allocator: elliptic-curve
+# operations allocate so much that the default 256 MiB quarantine is cycled through constantly
+# (page faults dominate, 20x slower).  A small quarantine keeps every check of the san flavour.
+_ENV = {"ASAN_OPTIONS": runner.SAN_ENV["ASAN_OPTIONS"] + ":quarantine_size_mb=8:thread_local_quarantine_size_kb=64"}
 
 
 def prebuild(repo):
     stage("w_c20", repo)
 
 
+def post(recs, merged):
+    import c20_gpg
+    viols, obs = c20_gpg.judge([r for r in recs if r.get("k", "").startswith("gpg")])
+    merged["obs"].update(obs)
+    # regions x artefact kinds actually swept, from the counters
+    cnt = merged.get("counts", {})
+    table = {}
+    for k, v in cnt.items():
+        if k.startswith("flip/"):
+            _, kind, region = k.split("/", 2)
+            table.setdefault(kind, {})[region] = v
+    merged["obs"]["tamper_regions_by_artefact_kind"] = table
+    merged["obs"]["aead_modes_offered"] = "EAX, OCB (the library defines no GCM mode)"
+    return viols
+
+
 def spec(tier, seed, repo):
+    quick = tier == "quick"
+    floors = {
+        "positive/docsig": 100 if quick else 500,
+        "positive/keysig": 120 if quick else 900,
+        "positive/keyblock": 8,
+        "positive/seipd": 18, "positive/aead": 90, "positive/cfb-foreign": 6, "sed/refusal-checked": 2,
+        "flip/docsig/sig.hashed": 3000, "flip/docsig/sig.mpi_val": 3000, "flip/docsig/data.octets": 3000, "flip/docsig/key.mpi_val": 3000,
+        "flip/keysig/sig.hashed": 3000, "flip/keysig/key.mpi_val": 1500, "flip/keysig/uid.body": 500,
+        "flip/keyblock/key.mpi_val": 200, "flip/keyblock/uidsig.hashed": 200, "flip/keyblock/bindsig.mpi_val": 100,
+        "flip/seipd/seipd.data": 300, "flip/seipd/seipd.mdc": 300, "flip/seipd/seipd.prefix": 300,
+        "flip/aead/aead.ct": 3000, "flip/aead/aead.tag": 2000, "flip/aead/aead.final_tag": 2000, "flip/aead/aead.ad": 800, "flip/aead/aead.iv": 2000,
+        "struct/aead/final-tag-dropped": 90, "struct/aead/chunks-0-1-swapped": 30, "struct/seipd/retagged-as-SED": 18,
+        "validity/docsig/expired": 20, "validity/docsig/weak-hash": 20, "validity/docsig/older-than-key": 40, "validity/docsig/future": 40,
+        "art/docsig/RSA": 10, "art/docsig/DSA": 10, "art/docsig/ECDSA": 10, "art/docsig/EdDSA": 5,
+    }
     return dict(
-        stages=[stage("w_c20", repo, nshards=16, case_timeout=300 if tier == "quick" else 1200)],
+        stages=[stage("w_c20", repo, nshards=16, env=_ENV, case_timeout=600 if quick else 1800, total_timeout=7200)],
         level="fault_enumeration",
-        rule="wip", assumptions=[], floors={})
+        rule="one case = one artefact made with the library (document signature: key algorithm x hash x binary/text x v4/v5; "
+             "signature over keys/user IDs: 18 signature kinds x key algorithm x hash; key block; encrypted message: "
+             "SEIPD x session-key transport, AEAD x cipher x mode x chunk-size octet x plaintext length at chunk boundaries, "
+             "SED, foreign-cipher CFB) with its positive check and its tamper sweep: every octet (artefacts <= 150 octets; "
+             "otherwise first/last/one random octet of every format region + seeded positions up to 150; thorough: every octet "
+             "<= 4096) x 3 XOR masks (thorough: 10), structural tampers (chunk reorder/drop/duplicate, tag drop, truncation, "
+             "retagging), validity scenarios through the interposed clock.  evaluations = oracle evaluations (one parse+verify or "
+             "parse+decrypt each); distinct = distinct (artefact kind, part, region, offset) sub-cases that reached the oracle; "
+             "non-trivial = the untouched artefact was accepted first",
+        assumptions=[
+            "keys come from gcry_pk_genkey (libgcrypt's own RNG): key and signature octets are not reproducible per seed, every witness carries them",
+            "regions are computed by an independent packet walker (harness/c20_util.hh) from RFC 4880/6637/4880bis-06",
+            "judged regions: signed data, hashed area, signature MPI values, key material, ciphertext, tags, associated data, ESK values; "
+            "framing, unhashed area, left-16, MPI bit counts: judged only if different content is accepted",
+            "gpg 2.2 judges v4 binary/text signatures (text forms whose canonical form RFC 4880 leaves open are recorded only), "
+            "key block import and SEIPD decryption; v5/AEAD artefacts have no second judge",
+            "RSA 1024/2048, DSA 1024/160 2048/256 (2048/224 thorough), ElGamal 1024 (1536 thorough), NIST P-256/384/521, brainpoolP256r1 (P512r1 thorough), Ed25519, ECDH P-256/P-384/Curve25519",
+        ],
+        floors=floors, post=post)
